@@ -28,41 +28,6 @@ def factorisations(N):
     return [(tuple(x[0] for x in c), tuple(x[1] for x in c)) for c in itertools.product(*per_axis)]
 
 
-def basket(rng, wb, system, Ef, omega, tetra_ok=True):
-    c = wb.calculators
-    has_AA = system.has_R_mat("AA")
-    has_SS = system.has_R_mat("SS")
-    ext = dict(kwargs_formula={"external_terms": bool(has_AA)})
-    pool = {
-        "CumDOS": lambda t: c.static.CumDOS(Efermi=Ef, tetra=t),
-        "DOS": lambda t: c.static.DOS(Efermi=Ef, tetra=t),
-        "AHC": lambda t: c.static.AHC(Efermi=Ef, tetra=t, **ext),
-        "Ohmic_sea": lambda t: c.static.Ohmic_FermiSea(Efermi=Ef, tetra=t),
-        "Ohmic_surf": lambda t: c.static.Ohmic_FermiSurf(Efermi=Ef, tetra=t),
-        "BerryDipole_sea": lambda t: c.static.BerryDipole_FermiSea(Efermi=Ef, tetra=t, **ext),
-        "BerryDipole_surf": lambda t: c.static.BerryDipole_FermiSurf(Efermi=Ef, tetra=t, **ext),
-        "NLDrude_fder2": lambda t: c.static.NLDrude_Fermider2(Efermi=Ef, tetra=t),
-        "NLDrude_sea": lambda t: c.static.NLDrude_FermiSea(Efermi=Ef, tetra=t),
-        "Hall_classic_surf": lambda t: c.static.Hall_classic_FermiSurf(Efermi=Ef, tetra=t),
-        "JDOS": lambda t: c.dynamic.JDOS(Efermi=Ef[::2], omega=omega, smr_fixed_width=0.2),
-        "OptCond": lambda t: c.dynamic.OpticalConductivity(Efermi=Ef[::2], omega=omega, smr_fixed_width=0.2, kBT=0.02, **ext),
-    }
-    if has_SS:
-        pool["Spin"] = lambda t: c.static.Spin(Efermi=Ef, tetra=t)
-        pool["GME_spin_surf"] = lambda t: c.static.GME_spin_FermiSurf(Efermi=Ef, tetra=t)
-    names = sorted(pool)
-    k = int(rng.integers(2, 5))
-    chosen = [names[i] for i in sorted(rng.choice(len(names), size=min(k, len(names)), replace=False))]
-    out = {}
-    for nme in chosen:
-        t = bool(tetra_ok and rng.random() < 0.3 and nme not in ("JDOS", "OptCond"))
-        out[nme + ("_tetra" if t else "")] = pool[nme](t)
-    tabs = {"Energy": c.tabulate.Energy(), "BerryCurvature": c.tabulate.BerryCurvature(kwargs_formula={"external_terms": bool(has_AA)}),
-            "Velocity": c.tabulate.Velocity()}
-    out["tab"] = c.tabulate.TabulatorAll(tabs, mode="grid")
-    return out
-
-
 def case(ctx, rng, idx, state):
     import wannierberri as wb
     from wannierberri.grid import Grid
@@ -87,7 +52,7 @@ def case(ctx, rng, idx, state):
     nEf = int(rng.integers(4, 9))
     Ef = np.linspace(emin + 0.15 * (emax - emin), emax - 0.15 * (emax - emin), nEf) + rng.uniform(0, 1e-2)
     omega = np.linspace(0.1, 0.8 * (emax - emin), 4)
-    calcs = basket(rng, wb, system, Ef, omega)
+    calcs = runkit.big_basket(rng, wb, system, Ef, omega)
     twins = runkit.raw_twins(calcs)
     calcs_run = dict(calcs, **twins)
     # ---- tie guard: energies on the grid vs Fermi-bin edges of the finite-difference calculators ----
